@@ -554,6 +554,8 @@ class Interp:
             dtors = [f] if f else []
         if dtors:
             self.call(dtors[0], cell, [])
+        elif hasattr(self.hooks, 'external_destroy'):
+            self.hooks.external_destroy(self, cell)
         v.tag = '<destroyed>'
 
     def _same_obj(self, cell, keep):
@@ -823,6 +825,21 @@ class Interp:
                     return a ** b
                 return Poly.const(1).div(a ** (-b))
             raise Unsupported('pow with symbolic exponent at %s' % self.loc(node))
+        if bname in ('ldexp', 'std::ldexp', 'scalbn', 'std::scalbn') and len(args) == 2:
+            # x * 2^e, exact for every int e (no intermediate integer power)
+            a = self.to_poly(self.eval(args[0]))
+            e = self.eval(args[1])
+            if isinstance(e, Poly) and e.is_const() and e.const_value() == int(e.const_value()):
+                e = int(e.const_value())
+            if isinstance(e, int):
+                return a.scale(mpmath.ldexp(mpmath.mpf(1), e))
+            raise Unsupported('ldexp with symbolic exponent at %s' % self.loc(node))
+        if bname in ('std::min', 'std::max') and len(args) == 2:
+            x, y = self.eval(args[0]), self.eval(args[1])
+            x = x.value if isinstance(x, Cell) else x
+            y = y.value if isinstance(y, Cell) else y
+            if isinstance(x, int) and isinstance(y, int):
+                return min(x, y) if bname == 'std::min' else max(x, y)
         if bname in ('std::move', 'std::forward') and len(args) == 1:
             return self.lval(args[0])
         if name == '__builtin_assume' or name == '__builtin_unreachable' or name == '__builtin_expect':
@@ -844,6 +861,26 @@ class Interp:
                 fr.vars[p['id']] = self.lval(a)
             else:
                 fr.vars[p['id']] = Cell(self.eval(a), None, 0, p.get('name'))
+        self.frames.append(fr)
+        try:
+            try:
+                self.exec(lam['body'])
+            except _Return as r:
+                return r.value
+            return None
+        finally:
+            self.frames.pop()
+
+    def call_lambda_values(self, f, values):
+        """call a closure with already evaluated arguments (cells for reference parameters)"""
+        lam = f.lam
+        fr = Frame({'name': '<lambda>', 'params': lam['params']}, self.frame.this)
+        fr.vars.update(f.captures or {})
+        for p, v in zip(lam['params'], values):
+            if p.get('ref'):
+                fr.vars[p['id']] = v if isinstance(v, Cell) else Cell(v, None, 0, p.get('name'))
+            else:
+                fr.vars[p['id']] = Cell(v.value if isinstance(v, Cell) else v, None, 0, p.get('name'))
         self.frames.append(fr)
         try:
             try:
@@ -1080,6 +1117,21 @@ class Interp:
             return True
         if isinstance(v, FuncRef):
             return True
+        if isinstance(v, ITE):
+            ta, tb = self.truth(v.a, node), self.truth(v.b, node)
+            if not isinstance(ta, Cond) and not isinstance(tb, Cond):
+                if bool(ta) == bool(tb):
+                    return bool(ta)
+                return v.cond if ta else v.cond.negate()
+            ca = ta if isinstance(ta, Cond) else None
+            cb = tb if isinstance(tb, Cond) else None
+            left = (Cond('and', v.cond, ca) if ca is not None else (v.cond if ta else None))
+            right = (Cond('and', v.cond.negate(), cb) if cb is not None else (v.cond.negate() if tb else None))
+            if left is None:
+                return right if right is not None else False
+            if right is None:
+                return left
+            return Cond('or', left, right)
         raise Unsupported('truth value of %r at %s' % (v, self.loc(node)))
 
     def eval(self, node):
@@ -1684,6 +1736,11 @@ class Interp:
             self.eval(e)
 
     def declare(self, d):
+        self._declare(d)
+        if (d.get('staticLocal') or d.get('tls')) and hasattr(self.hooks, 'static_store'):
+            self.hooks.static_store(self, d, self.frame.vars.get(d['id']))
+
+    def _declare(self, d):
         cell = Cell(UNDEF, None, 0, d.get('name'))
         self.frame.vars[d['id']] = cell
         t = d.get('t', '')
@@ -1861,7 +1918,41 @@ class Interp:
     def exec_range_for(self, n):
         if hasattr(self.hooks, 'range_for'):
             return self.hooks.range_for(self, n)
-        raise Unsupported('range-for at %s' % self.loc(n))
+        rng = n['range']
+        v = self.lval(rng) if (rng.get('lv') or rng.get('xv')) else self.eval(rng)
+        if isinstance(v, Cell):
+            v = v.value
+        if isinstance(v, Ref):
+            v = v.cell.value
+        cells = None
+        if isinstance(v, Region):
+            if not isinstance(v.size, int):
+                raise Unsupported('range-for over an array of unknown extent at %s' % self.loc(n))
+            cells = [v.cell(k) for k in range(v.size)]
+        elif isinstance(v, ArrayView):
+            if len(v.dims) != 1:
+                raise Unsupported('range-for over a multi-dimensional array at %s' % self.loc(n))
+            cells = [v.region.cell(v.off + k) for k in range(v.dims[0])]
+        elif isinstance(v, Obj) and 'data' in v.fields and 'n' in v.fields:  # abstract std::vector
+            reg, cnt = v.fields['data'].value, v.fields['n'].value
+            if not isinstance(cnt, int):
+                raise Unsupported('range-for over a vector of symbolic length at %s' % self.loc(n))
+            cells = [reg.cell(k) for k in range(cnt)]
+        if cells is None:
+            raise Unsupported('range-for over %r at %s' % (v, self.loc(n)))
+        var = n['var']
+        for c in cells:
+            if var.get('ref'):
+                self.frame.vars[var['id']] = c
+            else:
+                val = self.read(c, n)
+                self.frame.vars[var['id']] = Cell(self.copy_value(val) if isinstance(val, Obj) else val, None, 0, var.get('name'))
+            try:
+                self.exec(n['body'])
+            except _Break:
+                break
+            except _Continue:
+                pass
 
     def exec_switch(self, n):
         v = self.eval(n['cond'])
